@@ -1,6 +1,6 @@
 (** C12 -- Bounded queues apply back-pressure without side effects; the
     containers behave like sequential FIFO / map structures. *)
-From Verif Require Import Base.Prelude M1.Containers M1.ContainersProofs M4.LockDefs M4.LockTableCheck.
+From Verif Require Import Base.Prelude M1.Containers M1.ContainersProofs M4.LockDefs M4.LockTableCheck M4.Linearize.
 From VerifGen Require Import LockTable.
 
 (** A bounded queue never holds more than its capacity, after any operation sequence. *)
@@ -68,3 +68,25 @@ Print Assumptions C12_container_methods_atomic.
 Theorem C12_container_methods_present : methods_present container_lock_table = true.
 Proof. exact container_methods_present. Qed.
 Print Assumptions C12_container_methods_present.
+
+(** Why atomic bodies are enough for "behave like sequential structures": for any state type, operation type and
+    sequential specification, any number of threads and any interleaving of invocations, lock-protected bodies and
+    returns -- the operations ordered by their atomic steps form a legal sequential history, every returned result is
+    the one of that history, and an operation that returned before another was invoked precedes it (linearizability). *)
+Theorem C12_atomic_bodies_legal_history : forall (St Op Res : Type) (spec : St -> Op -> St * Res) (s0 : St) tr c,
+  run St Op Res spec (cinit St Op Res s0) tr c -> legal St Op Res spec s0 (lin St Op Res c) (shared St Op Res c).
+Proof. exact linearization_is_legal. Qed.
+Print Assumptions C12_atomic_bodies_legal_history.
+
+Theorem C12_atomic_bodies_results : forall (St Op Res : Type) (spec : St -> Op -> St * Res) (s0 : St) tr1 tr2 n r c1 c2 c3,
+  run St Op Res spec (cinit St Op Res s0) tr1 c1 -> cstep St Op Res spec c1 (Ret Op Res n r) c2 -> run St Op Res spec c2 tr2 c3 ->
+  exists o, In (n, o, r) (lin St Op Res c1).
+Proof. exact returned_result_is_linearized. Qed.
+Print Assumptions C12_atomic_bodies_results.
+
+Theorem C12_atomic_bodies_real_time_order : forall (St Op Res : Type) (spec : St -> Op -> St * Res) (s0 : St) tr1 tr2 a ra b ob c1 c2 c3 c4,
+  run St Op Res spec (cinit St Op Res s0) tr1 c1 -> cstep St Op Res spec c1 (Ret Op Res a ra) c2 ->
+  run St Op Res spec c2 tr2 c3 -> cstep St Op Res spec c3 (Inv Op Res b ob) c4 ->
+  exists oa pre post, lin St Op Res c4 = pre ++ (a, oa, ra) :: post /\ (forall o r, ~ In (b, o, r) (pre ++ [(a, oa, ra)])).
+Proof. exact real_time_order. Qed.
+Print Assumptions C12_atomic_bodies_real_time_order.
